@@ -1,10 +1,158 @@
 import PhysisModel.Base.Proto
+import PhysisModel.Generated.C17Enums
+import PhysisModel.Model.Fault.Cfg
+import PhysisModel.Model.Fault.Fiin
+import PhysisModel.Model.Fault.Gearsets
+import PhysisModel.Model.Fault.Log
+import PhysisModel.Model.Fault.Patchlist
+import PhysisModel.Model.Fault.Patch
+import PhysisModel.Model.Fault.Exec
 namespace Physis.Driver.C17
-open Physis Physis.Proto
+open Physis Physis.Proto Physis.F Physis.StrF
+
+def chardatEnums : Chardat.Enums where
+  race := fun b => Generated.C17Enums.raceValid.contains b.toNat
+  gender := fun b => Generated.C17Enums.genderValid.contains b.toNat
+  tribe := fun b => Generated.C17Enums.tribeValid.contains b.toNat
+
+def logEnums : Log.Enums where
+  filter := fun b => Generated.C17Enums.filterTable.lookup b.toNat
+  channel := fun b => Generated.C17Enums.channelTable.lookup b.toNat
+
+/-- outcome line of an `Option`-returning entry point -/
+def outcome (m : M α) (digest : α → Bytes) (inputLen : Nat) : String :=
+  let over := if m.peak > budget inputLen then " overalloc:model" else ""
+  match m.res with
+  | .ok a => "some:" ++ hex64 (fnv1a (digest a)) ++ over
+  | .fail => "none" ++ over
+  | .fault f => "fault:" ++ f.name ++ over
+
+def kindOf (s : String) : Option Patchlist.Kind :=
+  if s == "boot" then some .boot else if s == "game" then some .game else none
+
+def plEntry (i : Nat) (s : String) : Option Patchlist.PatchEntry :=
+  match s.splitOn "," with
+  | [a, b, c, d] => do
+    let len ← a.toInt?
+    let size ← b.toInt?
+    let hbs ← c.toInt?
+    let nh ← d.toNat?
+    pure ⟨Patchlist.str s!"u{i}", Patchlist.str s!"v{i}", hbs, len, size,
+      (List.range nh).map (fun j => Patchlist.str s!"h{j}")⟩
+  | _ => none
+
+def plEntries (s : String) : Option (List Patchlist.PatchEntry) :=
+  if s == "-" then some [] else
+  let rec go (i : Nat) : List String → Option (List Patchlist.PatchEntry)
+    | [] => some []
+    | x :: r => do let e ← plEntry i x; let es ← go (i + 1) r; pure (e :: es)
+  go 0 (s.splitOn ";")
+
+def plRoundTrip (k : Patchlist.Kind) (b : Bytes) : String :=
+  if !validUtf8 b then "not-utf8" else
+  let m := Patchlist.fromString true k b
+  match m.res with
+  | .ok ps =>
+    let w := Patchlist.toString true k [] [] ps
+    match w.res with
+    | .ok out =>
+      let over := if max m.peak w.peak > budget b.length then " overalloc:model" else ""
+      "ok:" ++ hex64 (fnv1a (Patchlist.digest ps)) ++ ":" ++ hex64 (fnv1a (dBytes out)) ++ over
+    | .fail => "none"
+    | .fault f => "fault:" ++ f.name
+  | .fail => "none"
+  | .fault f => "fault:" ++ f.name
+
+/-- the subset of raw deflate the generator emits: one final *stored* block (anything else is
+answered as "does not inflate"; the generator's other streams start with the reserved block type) -/
+def miniInflate (comp : Bytes) (n : Nat) : Bool :=
+  match comp with
+  | h :: l0 :: l1 :: n0 :: n1 :: rest =>
+    if h &&& 7 == 1 then
+      let len := l0.toNat + 256 * l1.toNat
+      let nlen := n0.toNat + 256 * n1.toNat
+      len + nlen == 0xFFFF && len ≤ rest.length && len ≤ n
+    else false
+  | _ => false
+
+def parseTree (s : String) : Option (List Fs.Path × List Fs.Path) :=
+  if s == "-" then some ([], []) else
+  (s.splitOn ";").foldlM (fun (acc : List Fs.Path × List Fs.Path) e =>
+    match e.splitOn ":" with
+    | [k, h] =>
+      match Bytes.ofHex h with
+      | some b =>
+        let p := Fs.components b
+        let pre := (Fs.prefixes p).filter (fun q => !q.isEmpty)
+        if k == "d" then some (acc.1 ++ pre, acc.2)
+        else if k == "f" then some (acc.1 ++ pre.dropLast, acc.2 ++ [p])
+        else none
+      | none => none
+    | _ => none) ([], [])
+
+def applyOutcome (root : Fs.Root) (dirs files : List Fs.Path) (b : Bytes) : String × List String :=
+  let fs : Fs.FS := { root := root, dirs := if root == .dir then dirs else [], files := if root == .dir then files else [] }
+  let m := Patch.apply miniInflate (2 ^ 24) fs b
+  let tags := if m.peak > budget b.length then ["kf:patch-block-decompressed-alloc"] else []
+  match m.res with
+  | .ok _ => ("ok", tags)
+  | .fail => ("err", tags)
+  | .fault f => ("fault:" ++ f.name, tags)
 
 /-- one case line in, one answer line out (see `Base/Proto.lean`) -/
 def handle (line : String) : String :=
   match fields line with
+  | [op, h] =>
+    match Bytes.ofHexFast h with
+    | none => bad
+    | some b =>
+      let n := b.length
+      let triv := if n ≤ 1 then ["triv"] else []
+      match op with
+      | "cfg" => answer "=" (outcome (Cfg.fromExisting true b) Cfg.digest n) triv
+      | "exl" => answer "=" (outcome (Exl.fromExisting b) Exl.digest n) triv
+      | "fiin" => answer "=" (outcome (Fiin.fromExisting true b) Fiin.digest n) triv
+      | "chardat" => answer "=" (outcome (Chardat.fromExisting true chardatEnums b) Chardat.digest n) triv
+      | "gearsets" => answer "=" (outcome (Gearsets.fromExisting true b) Gearsets.digest n) triv
+      | "log" => answer "=" (outcome (Log.fromExisting true logEnums b) Log.digest n) triv
+      | "pl_boot" => answer "=" (plRoundTrip .boot b) triv
+      | "pl_game" => answer "=" (plRoundTrip .game b) triv
+      | _ => bad
+  | ["apply", root, tree, mode, h] =>
+    let root? : Option Fs.Root := if root == "dir" then some .dir else if root == "missing" then some .missing
+      else if root == "file" then some .file else none
+    match root?, parseTree tree, Bytes.ofHexFast h with
+    | some r, some (ds, fs), some b =>
+      if mode == "file" then
+        let (o, tags) := applyOutcome r ds fs b
+        answer "=" o tags
+      else if mode == "missing" || mode == "isdir" then answer "=" "err"
+      else bad
+    | _, _, _ => bad
+  | ["execlookup", mode, h] =>
+    match Bytes.ofHexFast h with
+    | some b =>
+      if mode == "file" then answer "=" (outcome (Exec.extractFrontierUrl true (some b)) dBytes b.length)
+      else if mode == "missing" || mode == "isdir" then answer "=" (outcome (Exec.extractFrontierUrl true none) dBytes 0)
+      else bad
+    | none => bad
+  | ["bootdata", mode, h] =>
+    match Bytes.ofHexFast h with
+    | some b =>
+      if mode == "ok" then answer "=" (outcome (Exec.bootData true (some b)) dBytes b.length)
+      else if mode == "nodir" then answer "=" (outcome (Exec.bootData false none) dBytes 0)
+      else if mode == "nover" || mode == "verdir" then answer "=" (outcome (Exec.bootData true none) dBytes 0)
+      else bad
+    | none => bad
+  | ["pl_write", k, es] =>
+    match kindOf k, plEntries es with
+    | some k, some ps =>
+      let w := Patchlist.toString true k (Patchlist.str "ID") (Patchlist.str "loc") ps
+      match w.res with
+      | .ok out => answer "=" ("ok:" ++ hex64 (fnv1a (dBytes out)))
+      | .fail => answer "=" "none"
+      | .fault f => answer "=" ("fault:" ++ f.name)
+    | _, _ => bad
   | _ => bad
 
 end Physis.Driver.C17
